@@ -35,6 +35,8 @@ Steps      == Traces[tid].steps
 RecPar(st)   == [i \in 1..N |-> IF i <= Len(st.par) THEN SetOf(st.par[i]) ELSE {}]
 RecPacks(st) == {PackOf(st.packs[i]) : i \in DOMAIN st.packs}
 RecRef(f)    == [r \in Refs |-> f[r]]
+\* grafts come as one entry per commit: [has |-> BOOLEAN, p |-> <<parents>>]
+RecGraft(st) == [i \in 1..N |-> IF i <= Len(st.graft) /\ st.graft[i].has THEN SetOf(st.graft[i].p) ELSE NOGRAFT]
 RecCg(st)    == [on |-> st.cg.on, commits |-> SetOf(st.cg.commits), closed |-> st.cg.closed]
 RecMidx(st)  == [on |-> st.midx.on, packs |-> {PackOf(st.midx.packs[i]) : i \in DOMAIN st.midx.packs}]
 RecBmp(st)   == {[at |-> PackOf(st.bmp[i].at), for |-> PackOf(st.bmp[i]["for"])] : i \in DOMAIN st.bmp}
@@ -45,6 +47,7 @@ RecAct(a)    == [i \in DOMAIN a |-> CASE a[i].k = "set" -> SetOf(a[i].v) [] a[i]
 Matches(st) ==
     /\ n' = st.n /\ par' = RecPar(st) /\ loose' = SetOf(st.loose) /\ packs' = RecPacks(st)
     /\ lref' = RecRef(st.lref) /\ pref' = RecRef(st.pref)
+    /\ graft' = RecGraft(st) /\ shal' = SetOf(st.shal)
     /\ midx' = RecMidx(st)
     /\ cg'.on = st.cg.on /\ (st.cg.on => cg' = RecCg(st))
     /\ {[at |-> b.at, for |-> b.for] : b \in bmp'} = RecBmp(st)
@@ -68,12 +71,15 @@ StepOf(a) ==
       [] a[1] = "CopyCg"    -> CopyCg
       [] a[1] = "CopyBmp"   -> CopyBmp(a[2], a[3])
       [] a[1] = "Reindex"   -> Reindex(a[2], a[3])
+      [] a[1] = "SetGraft"  -> SetGraft(a[2], a[3])
+      [] a[1] = "SetShallow" -> SetShallow(a[2])
       [] OTHER -> FALSE
 StrictNow == StepOf(Cur.act) /\ Matches(Cur.st)
 \* leave the model: adopt what the directory shows
 Adopt(s) ==
     /\ n' = s.st.n /\ par' = RecPar(s.st) /\ loose' = SetOf(s.st.loose) /\ packs' = RecPacks(s.st)
     /\ lref' = RecRef(s.st.lref) /\ pref' = RecRef(s.st.pref)
+    /\ graft' = RecGraft(s.st) /\ shal' = SetOf(s.st.shal)
     /\ tref' = [r \in Refs |-> IF lref'[r] # 0 THEN lref'[r] ELSE pref'[r]]
     /\ midx' = RecMidx(s.st) /\ cg' = RecCg(s.st)
     /\ bmp' = {[at |-> b.at, for |-> b.for, sel |-> {}] : b \in RecBmp(s.st)}
@@ -85,9 +91,9 @@ AdoptNow == Adopt(Cur)
 Ans(r) == SetOf(r)                     \* [0] = KeyError, [-1] = something that is not a set of whole groups
 \* c is the context computed once per state: [ta |-> TAncFn, u |-> View({})]
 ExactHas(o) == \A i \in 1..n : o.has[i] = (IF T_Has(i) THEN 1 ELSE 0)
-ExactPar(o) == \A i \in 1..n : Ans(o.par[i]) = T_Par(i)
+ExactPar(o) == \A i \in 1..n : Ans(o.par[i]) = T_EPar(i) /\ Ans(o.walk[i]) = T_Walk(i)
 ExactAnc(c, o) == \A k \in DOMAIN o.anc : Ans(o.anc[k].r) = T_Anc(c.ta, SetOf(o.anc[k].H))
-ExactMb(c, o)  == \A k \in DOMAIN o.mb : Ans(o.mb[k].r) = T_Mb(c.ta, o.mb[k].i, o.mb[k].j)
+ExactMb(c, o)  == \A k \in DOMAIN o.mb : Ans(o.mb[k].r) = T_Mb(o.mb[k].i, o.mb[k].j)
 \* longest path to a root (what get_depth documents); 0 for a commit that is not there
 RECURSIVE DepthUpTo(_)
 DepthUpTo(k) == IF k = 0 THEN <<>>
